@@ -312,3 +312,21 @@ Proof.
   - exact (reverse_elementwise l a c Hac Hcl).
 Qed.
 Print Assumptions C11_reverse_reverses.
+
+(* std::rotate(begin() + a, begin() + b, begin() + c) (the three reversals): the vector afterwards
+   represents the list rotated left by b - a inside [a, c) *)
+Theorem C11_rotate_rotates : forall L, wf_plist L = true -> has_varying L = false ->
+  forall v l offs a b c, RepO L v l offs -> (a <= b)%nat -> (b <= c)%nat -> (c <= length l)%nat ->
+  exists l', RepO L (fst (swaps L true v v (rev_pairs (Z.of_nat a) (Z.of_nat b) ++ rev_pairs (Z.of_nat b) (Z.of_nat c) ++
+                                            rev_pairs (Z.of_nat a) (Z.of_nat c)))) l' offs /\
+    forall k, nth k l' [] =
+      if ((a <=? k) && (k <? c))%nat
+      then (if (k <? a + (c - b))%nat then nth (k + (b - a)) l [] else nth (k - (c - b)) l [])
+      else nth k l [].
+Proof.
+  intros L Hwf Hv v l offs a b c R Hab Hbc Hcl.
+  exists (fold_left lswap (rev_pairs_nat a b ++ rev_pairs_nat b c ++ rev_pairs_nat a c) l). split.
+  - exact (rotate_refines L Hwf Hv v l offs a b c R Hab Hbc Hcl).
+  - exact (rotate_elementwise l a b c Hab Hbc Hcl).
+Qed.
+Print Assumptions C11_rotate_rotates.
